@@ -88,6 +88,44 @@ theorem workers_share_entry (c0 : Config) (a0 : Option Nat) (cfgs : List Config)
       intro s1 hs1 s2 hs2
       exact key s1 (List.mem_cons_of_mem _ hs1) s2 (List.mem_cons_of_mem _ hs2)
 
+/-- **workers_share_concurrent** — several workers with empty caches ask for the sampler of the
+same sampler key at the same moment (each `GetSamplerImplementationForKey` call is an atomic step
+of the factory): whatever the order `ws'` in which their calls take effect — every permutation of
+the workers `ws` — and whatever happened before, all of them end up with the same instances, slot
+by slot. -/
+theorem workers_share_concurrent (c0 : Config) (a0 : Option Nat) (cfgs : List Config) (ops : List Op)
+    (env : Str) (henv : ':' ∉ env) (ho : OpsIn (fun e => ':' ∉ e) ops) (ws ws' : List Nat)
+    (_hperm : ws'.Perm ws)
+    (hfresh : ∀ w ∈ ws, ∀ ent, ((w, env), ent) ∉ (run c0 a0 cfgs ops).caches) :
+    ∀ w1 ∈ ws, ∀ w2 ∈ ws, ∀ ent1 ent2,
+      ((w1, env), ent1) ∈ (run c0 a0 cfgs (ops ++ ws'.map fun w => Op.get w env)).caches →
+      ((w2, env), ent2) ∈ (run c0 a0 cfgs (ops ++ ws'.map fun w => Op.get w env)).caches →
+      ent1.slots.map (·.id) = ent2.slots.map (·.id) := by
+  intro w1 hw1 w2 hw2 ent1 ent2 hm1 hm2
+  have ho' : OpsIn (fun e => ':' ∉ e) (ops ++ ws'.map fun w => Op.get w env) := by
+    intro w e hm
+    rcases List.mem_append.mp hm with h | h
+    · exact ho w e h
+    · obtain ⟨w', _, he⟩ := List.mem_map.mp h
+      cases he; exact henv
+  have inv0 := inv_run c0 a0 cfgs _ ops ho
+  have hrun : run c0 a0 cfgs (ops ++ ws'.map fun w => Op.get w env) =
+      (ws'.map fun w => Op.get w env).foldl (step cfgs) (run c0 a0 cfgs ops) := by
+    simp [run, List.foldl_append]
+  obtain ⟨hc, he, hmem⟩ := foldl_gets_caches (cfgs := cfgs) (fun c hc => List.mem_cons_of_mem _ hc)
+    env henv ws' _ inv0
+  rw [← hrun] at hc he hmem
+  have fresh : ∀ w ∈ ws, ∀ ent, ((w, env), ent) ∈ (run c0 a0 cfgs (ops ++ ws'.map fun w => Op.get w env)).caches →
+      ent.epoch = (run c0 a0 cfgs (ops ++ ws'.map fun w => Op.get w env)).epoch ∧
+      ent.slots.map (fun s => (s.pfx, s.d)) = slotsOf (run c0 a0 cfgs ops).cfg env := by
+    intro w hw ent hm
+    rcases hmem _ ent hm with h | ⟨_, b, c⟩
+    · exact absurd h (hfresh w hw ent)
+    · exact ⟨b.trans he.symm, c⟩
+  obtain ⟨e1, s1⟩ := fresh w1 hw1 ent1 hm1
+  obtain ⟨e2, s2⟩ := fresh w2 hw2 ent2 hm2
+  exact workers_share_entry c0 a0 cfgs _ ho' w1 w2 env ent1 ent2 hm1 hm2 e1 e2 (s1.trans s2.symm)
+
 /-! ### reload -/
 
 /-- **reload_clears (registry)** — `ClearDynsamplers` leaves no instance and no goal bookkeeping behind. -/
